@@ -553,7 +553,7 @@ pub fn run(ctx: &mut Ctx) {
     ctx.prop("typed", typed, any_case, |c: &AnyCase| c.visit(TypedCheck));
 
     // values whose lengths cross the 16 bit MessagePack / collection boundaries (typed laws only)
-    let sizes = ctx.pick(1_500, 40_000);
+    let sizes = ctx.pick(400, 10_000);
     ctx.prop(
         "sizes",
         sizes,
@@ -572,7 +572,7 @@ pub fn run(ctx: &mut Ctx) {
         check_cross,
     );
 
-    let near = ctx.pick(1_200_000, 30_000_000);
+    let near = ctx.pick(1_000_000, 25_000_000);
     ctx.prop(
         "near",
         near,
@@ -583,7 +583,7 @@ pub fn run(ctx: &mut Ctx) {
         check_near,
     );
 
-    let arb = ctx.pick(80_000, 2_000_000);
+    let arb = ctx.pick(50_000, 1_250_000);
     ctx.prop(
         "arb",
         arb,
